@@ -2,6 +2,7 @@ import WuffsVerif.Common.Line
 import WuffsVerif.Model.Det
 import WuffsVerif.Model.DetBuild
 import WuffsVerif.Model.DetRelease
+import WuffsVerif.Model.DetQQID
 /-! Line driver for C20.  Ops:
   listdir <dir-hex> <suffix-hex> <0|1> <name-hex>:<d|f> …   -> files=<hex,…|-> dirs=<hex,…|->
       (entries in the order they were created; the model is `Det.listDir`)
@@ -15,6 +16,8 @@ import WuffsVerif.Model.DetRelease
        `Det.releaseArgs` over the outputs of the plan)
   release <rel-hex>:<include-hex>,… …                           -> ok <hex,…|-> | err
       (`wuffs-c genrelease` arguments in command-line order with their #include targets; `Det.assemble`)
+  qqidlt <x0> <x1> <x2> <y0> <y1> <y2>                          -> true | false
+      (t.QQID.LessThan on uint32 triples; `Det.qqidLess`)
 -/
 open WuffsVerif WuffsVerif.Line WuffsVerif.Det
 
@@ -117,6 +120,10 @@ def c20Step (l : List String) : String :=
       | some order => "ok " ++ showNames order
       | none => "err"
     | none => "bad-op"
+  | ["qqidlt", x0, x1, x2, y0, y1, y2] =>
+    match [x0, x1, x2, y0, y1, y2].mapM String.toNat? with
+    | some [a, b, c, d, e, f] => toString (qqidLess a b c d e f)
+    | _ => "bad-op"
   | "topo" :: structs =>
     match structs.mapM parseStruct with
     | some ns =>
